@@ -63,6 +63,9 @@ def run(prog: Program, rep: Report, tier: str) -> None:
     rep.rule("R15.5", "unsupported mode raises RuntimeError before any IR lookup", 10)
     rep.rule("R15.6", "payload = 00000000 ++ hex(text(Para ++ '|' ++ HexCode)) of the entry under the final key, and the length field is the little-endian 16-bit payload size for every size", 3)
     rep.rule("R15.7", "capabilities are read from the set: toggle type from OnOffType == 1, separate-swing flag from membership of IRSetID in the special list, each wave stored under its own key with its own Para/HexCode, temperature range = min and max (updated independently) of the numeric key[2:4]", 4)
+    rep.rule("R15.9", "a remote's tables belong to the instance: no container read by the remote's methods is created in a class body and mutated in place through instances "
+                      "(it would be one table for all remotes, so a remote of one IR set would answer with another set's codes and modes)", 0, structural=True)
+    rep.claims_instance_state = "R15.9"
     rep.rule("R15.8", "remote cache: get_remote constructs from the loaded set's entry for remote_id, stores it under and returns it by the same id", 1)
     rep.explanation = (
         "Decides structural clauses on every control-flow path of build_command / build_swing_command / SwitcherBreezeCommand / get_remote, with mode, power state, swing, toggle type and previous state "
